@@ -39,7 +39,10 @@ KINDS = {
     "wrong-type": {"yaql": "ctx(s) + 1", "jinja": "ctx('s') + 1"},
     "unknown-function": {"yaql": "nosuchfn(1)", "jinja": "nosuchfn(1)"},
     "index-range": {"yaql": "ctx(l)[5]", "jinja": "ctx('l')[5]"},
+    # evaluates fine but to a value of the wrong type for the position (list / integer expected)
+    "bad-value-type": {"yaql": "ctx(s)", "jinja": "ctx('s')"},
 }
+TYPED_POSITIONS = ("items-list", "items-concurrency", "delay", "retry-count", "retry-delay")
 POSITIONS = [
     "input-default", "vars", "output", "action", "task-input", "items-list", "items-concurrency", "delay",
     "retry-count", "retry-delay", "retry-when", "transition-when", "publish", "downstream-input", "loop-publish",
@@ -119,6 +122,8 @@ def build(pos, kind, lng):
 def cells(tier=None):
     out = []
     for pos, kind, lng, var in itertools.product(POSITIONS, KINDS, ("yaql", "jinja"), VARIANTS):
+        if kind == "bad-value-type" and pos not in TYPED_POSITIONS:
+            continue
         out.append({"pos": pos, "kind": kind, "lang": lng, "variant": var})
     return out
 
@@ -311,7 +316,7 @@ def run_host(scn, stats):
     names = sorted(ir["tasks"])
     tname = names[scn["target"] % len(names)]
     t = defn["tasks"][tname]
-    kind = sorted(KINDS)[scn["kind"] % 4]
+    kind = [k for k in sorted(KINDS) if k != "bad-value-type"][scn["kind"] % 4]
     lng = ("yaql", "jinja")[scn["lng"] % 2]
     x = expr(kind, lng)
     plant = PLANTS[scn["plant"] % len(PLANTS)]
